@@ -351,6 +351,29 @@ def config_trees(run, tier, rng):
         if type(built) is not type(explicit) or a.shape != b.shape or a.tobytes() != b.tobytes():
             run.violation({"kind": "config_tree_features_differ_from_explicit_construction", "config": json.loads(snapshot),
                            "built": type(built).__name__, "explicit": type(explicit).__name__})
+    # explicit construction with POSITIONAL arguments in the documented order (class docstrings) against the same values
+    # in a configuration mapping
+    with warnings.catch_warnings():
+        warnings.simplefilter("ignore")
+        for (power, log) in ((True, False), (False, True)):
+            bank = filters.GaborFilterBank("mel", num_filts=3, sampling_rate=8000)
+            win = filters.HannWindow()
+            pos_si = compute.SIFrameComputer(bank, 8, "causal", True, False, win, power, log)
+            cfg_si = A.alias_factory_subclass_from_arg(compute.FrameComputer, json.loads(json.dumps(
+                {"name": "si", "bank": {"name": "gabor", "scaling_function": "mel", "num_filts": 3, "sampling_rate": 8000}, "frame_shift_ms": 8,
+                 "frame_style": "causal", "include_energy": True, "pad_to_nearest_power_of_two": False, "window_function": "hann",
+                 "use_power": power, "use_log": log})))
+            pos_st = compute.STFTFrameComputer(bank, 20, 8, "centered", True, False, win, log, power, True)
+            cfg_st = A.alias_factory_subclass_from_arg(compute.FrameComputer, json.loads(json.dumps(
+                {"name": "stft", "bank": {"name": "gabor", "scaling_function": "mel", "num_filts": 3, "sampling_rate": 8000}, "frame_length_ms": 20,
+                 "frame_shift_ms": 8, "frame_style": "centered", "include_energy": True, "pad_to_nearest_power_of_two": False,
+                 "window_function": "hann", "use_log": log, "use_power": power, "kaldi_shift": True})))
+            for nm, a_, b_ in (("si", pos_si, cfg_si), ("stft", pos_st, cfg_st)):
+                fa, fb = a_.compute_full(x), b_.compute_full(x)
+                run.evaluations += 1
+                if fa.shape != fb.shape or fa.tobytes() != fb.tobytes():
+                    run.violation({"kind": "config_tree_features_differ_from_explicit_construction", "computer": nm, "use_power": power, "use_log": log,
+                                   "what": "explicit construction with positional arguments in the documented order"})
     run.extra["config_trees"] = len(trees)
     run.sample({"config_tree": cfg})
 
